@@ -6,7 +6,7 @@
     textbook laws ([Laws P]) as a premise where a theorem needs them. *)
 From Coq Require Import List NArith ZArith Bool Arith.
 Import ListNotations.
-Require Import Aurora.Consts Aurora.C05.Sig Aurora.C05.SigProofs Aurora.C05.Model Aurora.C05.Proofs.
+Require Import Aurora.Consts Aurora.C05.Sig Aurora.C05.SigProofs Aurora.C05.Model Aurora.C05.Proofs Aurora.C05.Toy.
 Local Open Scope N_scope.
 
 Definition PP : params :=
@@ -133,43 +133,9 @@ Proof.
 Qed.
 Print Assumptions C05_short_and_total.
 
-(** non-vacuity: a toy instance of the primitives satisfies every law, and an
-    honestly signed chunk over it is valid (so the premises of the theorems
-    above are satisfiable) *)
-Definition pad32 (x : bytes) : bytes := firstn 32 (x ++ repeat 0 32).
-Definition toyP : prims :=
-  {| K := fun x => pad32 (map (fun b => (b + 1) mod 256) x);
-     S3 := pad32;
-     bmt := fun s pl => pad32 (s ++ pl);
-     pub := pad32;
-     raw_sign := fun k d => 27 :: pad32 k ++ repeat 0 32;
-     raw_recover := fun s d => Some (firstn 32 (tl s));
-     ma_valid := fun _ => true |}.
-
-Lemma pad32_len x : length (pad32 x) = 32%nat.
-Proof. unfold pad32. rewrite firstn_length, app_length, repeat_length. apply Nat.min_l. apply Nat.le_add_l. Qed.
-
-Lemma toy_laws : Laws toyP.
-Proof.
-  constructor; cbn [K S3 raw_sign raw_recover pub toyP].
-  - intros x. apply pad32_len.
-  - intros x. apply pad32_len.
-  - intros k d. cbn [length]. rewrite app_length, pad32_len, repeat_length. reflexivity.
-  - intros k d v rs Hq. injection Hq as <- <-. unfold canonical.
-    assert (H64 : nth 64 ((pad32 k ++ repeat 0 32) ++ [27]) 0 = 27).
-    { rewrite app_nth2; rewrite app_length, pad32_len, repeat_length; [reflexivity | apply Nat.le_refl]. }
-    rewrite H64.
-    assert (Hs : firstn 32 (skipn 32 ((pad32 k ++ repeat 0 32) ++ [27])) = repeat 0 32).
-    { rewrite <- app_assoc. rewrite skipn_app, pad32_len, Nat.sub_diag.
-      rewrite skipn_all2 by (rewrite pad32_len; apply Nat.le_refl).
-      cbn [app skipn]. rewrite firstn_app, repeat_length, Nat.sub_diag.
-      rewrite firstn_all2 by (rewrite repeat_length; apply Nat.le_refl).
-      cbn [firstn]. apply app_nil_r. }
-    rewrite Hs. vm_compute. reflexivity.
-  - intros k d. cbn [tl]. f_equal. rewrite firstn_app, pad32_len, Nat.sub_diag.
-    rewrite firstn_all2 by (rewrite pad32_len; apply Nat.le_refl). cbn [firstn]. apply app_nil_r.
-Qed.
-
+(** non-vacuity: a toy instance of the primitives ([Toy.toyP]) satisfies every
+    law, and an honestly signed chunk over it is valid (so the premises of the
+    theorems above are satisfiable) *)
 Example C05_hyps_satisfiable :
   Laws toyP /\
   let k := [7; 7; 7] in let id := repeat 9 32 in let payload := [1; 2; 3] in
@@ -177,7 +143,7 @@ Example C05_hyps_satisfiable :
   exists ch sch, cac_new PP toyP payload = Ok ch /\ soc_sign PP toyP k id ch = Ok sch /\
                  valid PP toyP sch = Ok true /\ length (c_data sch) = 108%nat.
 Proof.
-  split; [exact toy_laws|]. cbn zeta. split; [reflexivity|]. split; [vm_compute; reflexivity|].
+  split; [exact toy_laws|]. cbn zeta. split; [reflexivity|]. split; [cbn; repeat constructor|].
   split; [vm_compute; discriminate|].
   eexists. eexists. split; [vm_compute; reflexivity|]. split; [vm_compute; reflexivity|].
   split; vm_compute; reflexivity.
